@@ -15,6 +15,8 @@ func ZeroValue(t types.Type) *jen.Statement {
 			return jen.Lit(0)
 		} else if cast.Info()&types.IsBoolean != 0 {
 			return jen.Lit(false)
+		} else if cast.Kind() == types.UnsafePointer {
+			return jen.Nil()
 		}
 		panic("unknown basic type" + cast.String())
 	case *types.Named:
